@@ -152,7 +152,7 @@ def build_driver():
     rc, out = sh("coqc -Q ../../theories RV ../../theories/Extract.v", 600, cwd=d)
     if rc != 0: return rc, out
     for f in glob.glob(os.path.join(V, "driver", "*.ml")): shutil.copy(f, d)
-    rc, out = sh("ocamlfind ocamlopt -O2 -w -a model.mli model.ml conv.ml apidrv.ml specdrv.ml cpsdrv.ml driver.ml -o driver", 600, cwd=d)
+    rc, out = sh("ocamlfind ocamlopt -package unix -linkpkg -O2 -w -a model.mli model.ml conv.ml apidrv.ml specdrv.ml cpsdrv.ml driver.ml -o driver", 600, cwd=d)
     if rc == 0: open(stamp, "w").write(hsh)
     return rc, out
 
